@@ -238,6 +238,11 @@ def check_state(sysm, p, path, res, viol):
         for vn, tv in truths[di].items():
             if not tv["enabled"]:
                 viol("enabled-flag", "other-device", "after %r: DEV%d/%s became disabled" % (path, di, vn), {"p": p, "path": path, "req": None})
+            for en, e in tv["elements"].items():
+                if not e["enabled"]:
+                    # no operation touches another device's elements (declarations may be shared between driver classes
+                    # and instances: flags must not be)
+                    viol("enabled-flag", "other-device,element", "after %r: DEV%d/%s.%s became disabled" % (path, di, vn, en), {"p": p, "path": path, "req": None})
     for device in names + [None, "NOPE", "LABEL"] + (["PX"] if sysm.proxy is not None else []):
         for name in [None] + vnames + ["NOPE"] + (["CONNECTION"] if sysm.proxy is not None else []):
             rep = {"p": p, "path": path, "req": [device, name]}
